@@ -124,9 +124,9 @@ def cases(seed, tier, shard, nshards):
             n = rng.choice([1, 2, 4, 8, 15, 30, 60 if tier == 'thorough' else 25])
             ast = G.random_ast(rng, n, max_depth=rng.randint(1, 4), p_branch=rng.choice([0.2, 0.5]), p_bond=rng.choice([0.1, 0.5]),
                                n_rings=rng.choice([0, 1, 3]), p_mult_node=rng.choice([0, 0.2]), p_mult_branch=rng.choice([0, 0.3]),
-                               p_annot=rng.choice([0, 0.3]), annot_fn=lambda r_: A.random_annotation(r_, 'base'))
+                               p_annot=rng.choice([0, 0.3]), annot_fn=lambda r_: A.random_annotation(r_, 'base'), p_trailing_branch=rng.choice([0, 0.15]))
             feats = G.features(ast)
-            if feats & {'double_close', 'bond_after_node_mult', 'nested_branch_in_mult_unit', 'ring_in_mult_unit',
+            if feats & {'nested_branch_in_mult_unit', 'ring_in_mult_unit',
                         'node_mult_after_bond_in_mult_unit', 'nested_mult_after_nested_branch', 'ring_on_mult_anchor', 'branch_mult_in_mult_unit'}:
                 continue
             try:
